@@ -711,3 +711,12 @@ add("C06", "benign-factory-rule-ids-local", "core_codemods/sonar/api.py",
      ("                    rules=[\n                        ToolRule(\n                            id=rule_id,\n                            name=rule_name,\n                            url=rule_url,\n                        )\n                    ],\n", "                    rules=tool_rules,\n"),
      ("            requested_rules=[rule_id],", "            requested_rules=wanted,")],
     "silent")
+add("C19", "change-recorded-for-every-line", RT,
+    [("            if line != changed_line:\n                changes.append(", "            if True:\n                changes.append(")],
+    "fire", "R-ONE-APPEND-PER-LINE", "RegexTransformerPipeline._apply")
+add("C20", "argument-error-does-not-exit", CLI,
+    [("        logger.error(\"CLI error: %s\", message)\n        sys.exit(3)\n", "        logger.error(\"CLI error: %s\", message)\n")],
+    "fire", "R-STATUS-MAP", "error")
+add("C20", "list-action-falls-through", CLI,
+    [("            self._print_codemods()\n            parser.exit()\n", "            self._print_codemods()\n")],
+    "fire", "R-STATUS-MAP", "ListAction")
